@@ -55,7 +55,7 @@ def resolve(snap, path, cwd="/", follow_last=True, _depth=0):
             rest = "/".join(comps[i:])
             newp = tgt if tgt.startswith("/") else cur.rstrip("/") + "/" + tgt
             if rest:
-                newp = newp.rstrip("/") + "/" + rest
+                newp = newp.rstrip("/") + "/" + rest + ("/" if trailing else "")
             elif trailing:
                 newp = newp.rstrip("/") + "/"
             return resolve(snap, newp, "/", follow_last, _depth + 1)
